@@ -306,6 +306,7 @@ def c07(tier):
             {'kind': 'drive', 'profile': 'aggkernel', 'traces': 400 if q else 8000, 'steps': 0},
             {'kind': 'drive', 'profile': 'aggsparse', 'traces': 160 if q else 3000, 'steps': 0},
             {'kind': 'drive', 'profile': 'kernel', 'traces': 300 if q else 6000, 'steps': 0},
+            {'kind': 'drive', 'profile': 'cowkeys', 'traces': 300 if q else 6000, 'steps': 0},
         ],
     }
 
@@ -504,6 +505,7 @@ def c17(tier):
              'kinds': ['keygaps', 'chunky', 'tiny'], 'sample': 0.1 if q else 0.4, 'extra': B + ['-keeprcp']},
             {'kind': 'drive', 'profile': 'all64', 'traces': 200 if q else 4000, 'steps': 50, 'extra': B},
             {'kind': 'drive', 'profile': 'aggsparse', 'traces': 240 if q else 5000, 'steps': 0, 'extra': B},
+            {'kind': 'drive', 'profile': 'cowkeys', 'traces': 300 if q else 6000, 'steps': 0, 'extra': B},
             {'kind': 'drive', 'profile': 'iter64', 'traces': 80 if q else 1500, 'steps': 50, 'extra': B},
             {'kind': 'replay', 'model': M('iter_S7', 'iter', 'S7', depth=6, sim={'num': 400 if q else 8000, 'depth': 8, 'seed': 11}),
              'kinds': ['tiny', 'array', 'run', 'chunky', 'top', 'mixed', 'keygaps', 'keygaps'], 'sample': 0.05 if q else 0.3, 'extra': B},
